@@ -39,13 +39,13 @@ _NOREACH = ["-Z", "unstable-options", "--no-assertion-reach-checks"]
 PROPS["C04"] = dict(
     functions=["revm_interpreter::analysis::to_analysed / analyze (crates/interpreter/src/interpreter/analysis.rs) incl. the bitvec jump map it fills",
                "revm_primitives::JumpTable::is_valid, revm_interpreter::Contract::is_valid_jump", "revm_interpreter::instructions::control::{jump, jumpi} (jump_inner)"],
-    bounds="every legacy code of length 1..=6 (jump table) / 1..=4 (JUMP, JUMPI on a real Interpreter over the analysed contract), all bytes symbolic - so every "
+    bounds="every legacy code of length 1..=8 (jump table; quick tier 1..=4) / 1..=6 (JUMP, JUMPI on a real Interpreter over the analysed contract; quick tier 1..=2), all bytes symbolic - so every "
            "PUSH1..PUSH32 with truncated immediates is included; every usize position / every 256-bit jump target; every JUMPI condition; all gas >= 10",
-    outside="codes longer than 6 (4) bytes: the scan is uniform in position but no induction is claimed; lazily analysed LegacyRaw code never reaches the interpreter",
+    outside="codes longer than 8 (6) bytes: the scan is uniform in position but no induction is claimed; lazily analysed LegacyRaw code never reaches the interpreter",
     assumptions=["reference: forward scan from position 0 written in the harness (0x5B, 0x60..=0x7F immediates)", "kissat back end, --no-assertion-reach-checks (performance only; "
                  "vacuity is guarded by kani::cover!)", "Kani/CBMC trusted"],
-    harnesses=[H("c04::c04_table_%d" % n, tier=("quick" if n <= 4 else "thorough"), flags=_NOREACH, timeout=1500, mem_gb=8, bounds="all codes of %d bytes x all positions" % n) for n in range(1, 7)]
-    + [H("c04::c04_jump_%d" % n, tier=("quick" if n <= 2 else "thorough"), flags=_NOREACH, timeout=1500, mem_gb=8, bounds="all codes of %d bytes x all 256-bit targets x JUMP/JUMPI" % n) for n in range(1, 5)]
+    harnesses=[H("c04::c04_table_%d" % n, tier=("quick" if n <= 4 else "thorough"), flags=_NOREACH, timeout=1500, mem_gb=8, bounds="all codes of %d bytes x all positions" % n) for n in range(1, 9)]
+    + [H("c04::c04_jump_%d" % n, tier=("quick" if n <= 2 else "thorough"), flags=_NOREACH, timeout=1500, mem_gb=8, bounds="all codes of %d bytes x all 256-bit targets x JUMP/JUMPI" % n) for n in range(1, 7)]
     + [H("c04::c04_twin_must_fail", expect_fail=True, flags=_NOREACH, bounds="vacuity twin", mem_gb=8, timeout=900)],
 )
 
@@ -348,7 +348,7 @@ CLAIMS = {
              "immediates is covered) and the resulting table is compared at every position with `target < len, byte is JUMPDEST, not inside push data`; the real JUMP and "
              "JUMPI are then run on an interpreter over that contract for every 256-bit target and condition: they land on the target exactly when it is valid and halt "
              "with InvalidJump otherwise.",
-        note="Bounded by code length (6 for the table, 4 for the instructions). CBMC's pointer checks stay on inside the raw-pointer walk of `analyze`.",
+        note="Bounded by code length (8 for the table, 6 for the instructions; 4 / 2 in the quick tier). CBMC's pointer checks stay on inside the raw-pointer walk of `analyze`.",
         technique="Kani/CBMC (kissat) bounded model checking of to_analysed + jump/jumpi against a forward-scan reference, all code bytes and targets symbolic",
         design_ref="DESIGN.md §5 C04"),
     "C05": dict(
